@@ -180,6 +180,20 @@ CHECKS = {
             "Python-side wrappers (calendar_py.rs) are outside Verus' reach",
         ],
     },
+    "C09": {
+        "units": ["fx"],
+        "extra": "c09",
+        "level": "other",
+        "explanation": "mixed: the rejection clauses and the two seeding functions are proved (Verus); the graph fill-in itself is only explored by a bounded probe on the real code (labelled bounded, not proved)",
+        "assumptions": CHRONO_ASSUMPTIONS + [
+            "create_initial_fx_array is verified over the abstract ring of shim/ring.rs (f64 / Dual / Dual2 instances assumed to satisfy its axioms)",
+            "IndexSet<Ccy> get_index_of / insert / len, Array2::eye, slice iteration: shim contracts",
+        ],
+        "uncovered": [
+            "mut_arrays_remaining_elements / create_fx_array: completeness of the fill-in for every tree, the path-product identity and rejection of cyclic quote sets of the right count are NOT proved (bounded probe only)",
+            "independence of quote order and base currency: bounded probe only",
+        ],
+    },
     "C10": {
         "units": ["fx"],
         "level": "proof",
